@@ -5,6 +5,8 @@ import (
 	"fmt"
 	"os"
 	"testing"
+
+	"pgregory.net/rapid"
 )
 
 // TestDbgSearchC10: brute-force search over short tapes for a refused RPC whose caller does not see Unavailable (development aid, env-gated).
@@ -40,4 +42,23 @@ func TestDbgSearchC10(t *testing.T) {
 		}
 	}
 	fmt.Println("found", found)
+}
+
+// TestDbgQuiesce: runs generated raw_overrun / mixed cases with the quiescence cross-check on and reports mismatches.
+func TestDbgQuiesce(t *testing.T) {
+	if os.Getenv("VERIF_VERIFY_QUIESCE") == "" {
+		t.Skip()
+	}
+	n := 0
+	rapid.Check(t, func(rt *rapid.T) {
+		var c *Case
+		if rapid.Bool().Draw(rt, "which") {
+			c = genRawOverrun(rt)
+		} else {
+			c = genMixedTerm(rt)
+		}
+		runInBubble(t, c)
+		n++
+	})
+	fmt.Println("cases", n, "quiescence mismatches", QuiesceMismatch.Load())
 }
